@@ -8,6 +8,7 @@ import DD.Dump
 import DDProofs.Ite
 import DDProofs.VarsProofs
 import DDProofs.DynRef
+import DDProofs.SatList
 open Std
 namespace DD
 
@@ -442,20 +443,25 @@ def loadPickleBody (f : PickleFile) (levels : Bool) : M Roots := fun m =>
 
 theorem loadPickle_eq (f : PickleFile) (levels : Bool) (m : Mgr) :
     loadPickle f levels m =
-      if (levels && !levelsCompatible m.tbl f.vars) = true then (.error .value, m)
+      if (levels && !levelsPermutation f.vars) = true then (.error .value, m)
+      else if (levels && !levelsCompatible m.tbl f.vars) = true then (.error .value, m)
       else loadPickleBody f levels m := rfl
 
 theorem loadPickle_of_compat (f : PickleFile) (levels : Bool) (m : Mgr)
-    (h : levels = true → levelsCompatible m.tbl f.vars = true) :
+    (h : levels = true → levelsPermutation f.vars = true ∧ levelsCompatible m.tbl f.vars = true) :
     loadPickle f levels m = loadPickleBody f levels m := by
   rw [loadPickle_eq]
   cases levels with
   | false => simp
-  | true => simp [h rfl]
+  | true => simp [(h rfl).1, (h rfl).2]
 
-theorem loadPickle_refused (f : PickleFile) (m : Mgr) (h : levelsCompatible m.tbl f.vars = false) :
+theorem loadPickle_refused (f : PickleFile) (m : Mgr)
+    (h : levelsPermutation f.vars = false ∨ levelsCompatible m.tbl f.vars = false) :
     loadPickle f true m = (.error .value, m) := by
-  rw [loadPickle_eq]; simp [h]
+  rw [loadPickle_eq]
+  rcases h with h | h
+  · simp [h]
+  · by_cases hp : levelsPermutation f.vars = true <;> simp [hp, h]
 
 /-- the second half of `load`: with the variables declared, the nodes are rebuilt and the
 roots denote (over the target's levels) what the file says -/
@@ -463,7 +469,7 @@ theorem loadPickle_core {Q : Mgr → Prop} (hQ : LoadKeeps Q) (f : PickleFile) (
     (m m1 : Mgr) (hv : loadVars levels f.vars.length f.vars [] m = (.ok lm, m1))
     (hI : Inv m1) (hq : Q m1) (hc : m1.ctx = false) (hs : SuccWF f.succ f.vars.length)
     (hl : LMOK f.succ lm m1.nvars) (hr : RootsResolvable f)
-    (hcomp : levels = true → levelsCompatible m.tbl f.vars = true) :
+    (hcomp : levels = true → levelsPermutation f.vars = true ∧ levelsCompatible m.tbl f.vars = true) :
     ∃ roots' m', loadPickle f levels m = (.ok roots', m') ∧ Inv m' ∧ Frame m1 m' ∧
       Ext m1.tbl m'.tbl ∧
       RootsRel (fun u r => m'.tbl.Mem r ∧
@@ -933,7 +939,8 @@ theorem pickle_loadQ {Q : Mgr → Prop} (hQ : LoadKeeps Q) (f : PickleFile) (lev
     (hwf : PickleWF f) (hr : RootsResolvable f)
     (lm : List (Nat × Nat)) (m1 : Mgr)
     (hv : loadVars levels f.vars.length f.vars [] m = (.ok lm, m1))
-    (hg : Contig m1.tbl) :
+    (hg : Contig m1.tbl)
+    (hperm : levels = true → levelsPermutation f.vars = true) :
     ∃ roots' m', loadPickle f levels m = (.ok roots', m') ∧ Inv m' ∧ DmpVarsBij m'.tbl ∧
       Contig m'.tbl ∧ m'.ctx = false ∧ (∀ u n, m.tbl.node? u = some n → m'.tbl.node? u = some n) ∧
       LoadedFrom f m'.tbl roots' ∧ Q m' := by
@@ -952,7 +959,7 @@ theorem pickle_loadQ {Q : Mgr → Prop} (hQ : LoadKeeps Q) (f : PickleFile) (lev
     · exact hg v j hv'
   obtain ⟨roots', m', e1, I2, F2, X2, RR, Q2⟩ :=
     loadPickle_core hQ f levels lm m m1 hv I1 Q1 (C1.trans hc) hwf.succ hl hr
-      (fun hlv => by subst hlv; exact loadVars_true_compat _ _ _ _ _ _ hv hb)
+      (fun hlv => ⟨hperm hlv, by subst hlv; exact loadVars_true_compat _ _ _ _ _ _ hv hb⟩)
   have hn : NameOK f lm m'.tbl := by
     intro i j hij
     rcases R1 _ _ hij with h | ⟨v, hv1, hv2⟩
@@ -983,12 +990,13 @@ theorem pickle_load (f : PickleFile) (levels : Bool)
     (hwf : PickleWF f) (hr : RootsResolvable f)
     (lm : List (Nat × Nat)) (m1 : Mgr)
     (hv : loadVars levels f.vars.length f.vars [] m = (.ok lm, m1))
-    (hg : Contig m1.tbl) :
+    (hg : Contig m1.tbl)
+    (hperm : levels = true → levelsPermutation f.vars = true) :
     ∃ roots' m', loadPickle f levels m = (.ok roots', m') ∧ Inv m' ∧ DmpVarsBij m'.tbl ∧
       Contig m'.tbl ∧ m'.ctx = false ∧ (∀ u n, m.tbl.node? u = some n → m'.tbl.node? u = some n) ∧
       LoadedFrom f m'.tbl roots' := by
   obtain ⟨r, m', a, b, c, d, e, g, h, _⟩ :=
-    pickle_loadQ LoadKeeps.trivial f levels m hI True.intro hb hc hwf hr lm m1 hv hg
+    pickle_loadQ LoadKeeps.trivial f levels m hI True.intro hb hc hwf hr lm m1 hv hg hperm
   exact ⟨r, m', a, b, c, d, e, g, h⟩
 
 /-- exact reference counts are kept by the three mutations of `BDD.load` -/
@@ -1016,11 +1024,12 @@ theorem pickle_load_counts (ext : Nat → Nat) (f : PickleFile) (levels : Bool)
     (hwf : PickleWF f) (hr : RootsResolvable f)
     (lm : List (Nat × Nat)) (m1 : Mgr)
     (hv : loadVars levels f.vars.length f.vars [] m = (.ok lm, m1))
-    (hg : Contig m1.tbl) :
+    (hg : Contig m1.tbl)
+    (hperm : levels = true → levelsPermutation f.vars = true) :
     ∃ roots' m', loadPickle f levels m = (.ok roots', m') ∧ Inv m' ∧ RefExact m' ext ∧
       LoadedFrom f m'.tbl roots' := by
   obtain ⟨r, m', a, b, _, _, _, _, h, q⟩ :=
-    pickle_loadQ (LoadKeeps.refExact ext) f levels m hI hx hb hc hwf hr lm m1 hv hg
+    pickle_loadQ (LoadKeeps.refExact ext) f levels m hI hx hb hc hwf hr lm m1 hv hg hperm
   exact ⟨r, m', a, b, q, h⟩
 
 /-- C12 for `BDD.load` at FULL strength: every well-formed pickle content whose variables
@@ -1031,13 +1040,14 @@ order of the receiving manager, on constant roots, or on `roots` being present. 
 def pickle_load_statement : Prop :=
   ∀ (f : PickleFile) (levels : Bool) (tgt : Mgr), PickleWF f → RootsResolvable f →
     Inv tgt → DmpVarsBij tgt.tbl → tgt.ctx = false →
+    (levels = true → levelsPermutation f.vars = true) →
     ∀ lm m1, loadVars levels f.vars.length f.vars [] tgt = (.ok lm, m1) → Contig m1.tbl →
     ∃ roots' m', loadPickle f levels tgt = (.ok roots', m') ∧ Inv m' ∧ LoadedFrom f m'.tbl roots'
 
 /-- the repaired code satisfies the full statement -/
 theorem pickle_load_statement_holds : pickle_load_statement := by
-  intro f levels tgt hwf hr hI hb hc lm m1 hv hg
-  obtain ⟨r, m', e, I, _, _, _, _, L⟩ := pickle_load f levels tgt hI hb hc hwf hr lm m1 hv hg
+  intro f levels tgt hwf hr hI hb hc hperm lm m1 hv hg
+  obtain ⟨r, m', e, I, _, _, _, _, L⟩ := pickle_load f levels tgt hI hb hc hwf hr lm m1 hv hg hperm
   exact ⟨r, m', e, I, L⟩
 
 /-! #### `levels=False`: the loader accepts every variable, whatever the order of the manager -/
@@ -1547,6 +1557,59 @@ theorem loadedAs_of_loadedFrom {src : Mgr} (hIs : Inv src) (hvs : DmpVarsOK src.
   intro u hu r ⟨h1, h2⟩
   exact ⟨h1, fun α => by rw [h2 α, dumpPickle_eval hIs hvs hd α u hu]⟩
 
+theorem toList_pairwise (t : Tbl) (hb : DmpVarsBij t) :
+    t.vars.toList.Pairwise (fun a b => a.1 ≠ b.1 ∧ a.2 ≠ b.2) := by
+  apply List.Pairwise.imp_of_mem _ (TreeMap.distinct_keys_toList (t := t.vars))
+  intro a b ha hb' hne
+  have h1 : a.1 ≠ b.1 := fun h => hne (by rw [h]; exact compare_self)
+  refine ⟨h1, ?_⟩
+  intro h2
+  obtain ⟨a1, a2⟩ := a
+  obtain ⟨b1, b2⟩ := b
+  rw [TreeMap.mem_toList_iff_getElem?_eq_some] at ha hb'
+  simp at h2
+  subst h2
+  have x := (hb a1 a2).mp ha
+  have y := (hb b1 a2).mp hb'
+  rw [x] at y
+  cases y
+  exact h1 rfl
+
+/-- `sorted(levels) == list(range(n))` says: the levels are a permutation of `0..n-1` -/
+theorem levelsPermutation_iff (vs : List (String × Nat)) :
+    levelsPermutation vs = true ↔ (vs.map (·.2)).Perm (List.range vs.length) := by
+  unfold levelsPermutation
+  rw [beq_iff_eq]
+  constructor
+  · intro h; rw [← h]; exact (sortNat_perm _).symm
+  · intro h
+    have hn : (vs.map (·.2)).Nodup := h.nodup_iff.mpr List.nodup_range
+    apply List.Perm.eq_of_pairwise (le := fun a b => a < b) _ (sortNat_strict hn) List.pairwise_lt_range
+      ((sortNat_perm _).trans h)
+    intro a b _ _ h1 h2; omega
+
+/-- the pairs a manager with consistent, gap-free order tables writes -/
+theorem levelsPermutation_toList (t : Tbl) (hv : DmpVarsOK t) : levelsPermutation t.vars.toList = true := by
+  rw [levelsPermutation_iff]
+  have hp := toList_pairwise t hv.bij
+  have hn : (t.vars.toList.map (·.2)).Nodup := by
+    rw [List.Nodup, List.pairwise_map]; exact hp.imp (fun h => h.2)
+  apply (List.perm_ext_iff_of_nodup hn List.nodup_range).mpr
+  intro l
+  rw [List.mem_range, TreeMap.length_toList]
+  constructor
+  · intro h
+    obtain ⟨⟨v, l'⟩, hm, rfl⟩ := List.mem_map.mp h
+    rw [TreeMap.mem_toList_iff_getElem?_eq_some] at hm
+    exact hv.contig v l' hm
+  · intro h
+    obtain ⟨v, hvl⟩ := Option.isSome_iff_exists.mp (hv.named l h)
+    exact List.mem_map.mpr ⟨(v, l), TreeMap.mem_toList_iff_getElem?_eq_some.mpr ((hv.bij v l).mpr hvl), rfl⟩
+
+theorem dumpPickle_levelsPerm {m : Mgr} (hv : DmpVarsOK m.tbl) {roots : Roots} {f : PickleFile}
+    (h : dumpPickle m roots = .ok f) : levelsPermutation f.vars = true := by
+  rw [(dumpPickle_parts h).1]; exact levelsPermutation_toList m.tbl hv
+
 /-- C12, pickle, general form: dump `roots` (list, dict or `None`; constants allowed) of
 `src`, load the content into `tgt` with either value of `levels`, whatever the variable
 order of `tgt`.  The only hypotheses beyond the invariants: the loader accepts the
@@ -1563,7 +1626,7 @@ theorem pickle_roundtrip
       LoadedAs src.tbl roots m'.tbl roots' := by
   obtain ⟨roots', m', e, I, B, _, _, N, R⟩ :=
     pickle_load f levels tgt hI hb hc (dumpPickle_wf hIs hvs hd) (dumpPickle_resolvable hIs hd)
-      lm m1 hv hg
+      lm m1 hv hg (fun _ => dumpPickle_levelsPerm hvs hd)
   exact ⟨roots', m', e, I, B, N, loadedAs_of_loadedFrom hIs hvs hd R⟩
 
 /-- C12, pickle, `levels=False`: into ANY manager with a consistent order — other variable
@@ -1579,7 +1642,7 @@ theorem pickle_roundtrip_any_order
   have hwf := dumpPickle_wf hIs hvs hd
   obtain ⟨lm, m1, hv, O1⟩ := loadVars_false_total f.vars.length f.vars [] tgt hI hO hwf.bound
   obtain ⟨roots', m', e, I, B, G, _, N, R⟩ :=
-    pickle_load f false tgt hI hO.bij hc hwf (dumpPickle_resolvable hIs hd) lm m1 hv O1.contig
+    pickle_load f false tgt hI hO.bij hc hwf (dumpPickle_resolvable hIs hd) lm m1 hv O1.contig (fun h => by cases h)
   obtain ⟨_, _, C1, _⟩ := loadVars_spec Inv false f.vars.length f.vars
     (fun m var i j m' _ hJ h => addVar_inv hJ h) [] tgt lm m1 hv hI hO.bij
   refine ⟨roots', m', e, I, ?_, N, loadedAs_of_loadedFrom hIs hvs hd R⟩
@@ -1808,24 +1871,6 @@ theorem addVars_spec : ∀ (vs : List (String × Nat)) (m0 : Mgr),
         have : ¬ (l' = l) := fun h => hl h.symm
         simp [c1, this]
 
-
-theorem toList_pairwise (t : Tbl) (hb : DmpVarsBij t) :
-    t.vars.toList.Pairwise (fun a b => a.1 ≠ b.1 ∧ a.2 ≠ b.2) := by
-  apply List.Pairwise.imp_of_mem _ (TreeMap.distinct_keys_toList (t := t.vars))
-  intro a b ha hb' hne
-  have h1 : a.1 ≠ b.1 := fun h => hne (by rw [h]; exact compare_self)
-  refine ⟨h1, ?_⟩
-  intro h2
-  obtain ⟨a1, a2⟩ := a
-  obtain ⟨b1, b2⟩ := b
-  rw [TreeMap.mem_toList_iff_getElem?_eq_some] at ha hb'
-  simp at h2
-  subst h2
-  have x := (hb a1 a2).mp ha
-  have y := (hb b1 a2).mp hb'
-  rw [x] at y
-  cases y
-  exact h1 rfl
 
 theorem validOrdering_toList (t : Tbl) (hv : DmpVarsOK t) : validOrdering t.vars.toList = true := by
   unfold validOrdering
